@@ -1808,6 +1808,13 @@ func (db *DB) verifyWithExecutor(ctx context.Context, exec *syncExecutor) (info 
 	if err != nil {
 		return info, fmt.Errorf("last page match: %w", err)
 	} else if !lastPageMatch {
+		// The WAL content before our position is not what we copied (the
+		// database and WAL were replaced or rewritten). The snapshot must be
+		// built from the whole WAL: starting at the old position would leave
+		// out every committed frame before it that is not yet checkpointed
+		// into the database file.
+		info.offset = WALHeaderSize
+		info.salt1, info.salt2 = salt1, salt2
 		info.reason = "last page does not exist in last ltx file, wal overwritten by another process"
 		return info, nil
 	}
